@@ -220,3 +220,244 @@ def nonvacuity(ctx, meta, only=None):
         if o in meta and (only is None or o in only):
             ctx.oblige('non-vacuity: prog_%s runs to completion on a synthesised oracle (3 agents x 2 iterations and 1 agent x 1 iteration)' % o,
                        vd.get(o, False), 'the IR semantics gets stuck on the regenerated program: ill-scoped reference or register (translator defect?)')
+
+
+# ------------------------------------------------------------------ T2 state replay (differential, evaluated inside Coq)
+
+REPLAY_PRELUDE = r'''From Coq Require Import String ZArith List Bool Arith.
+From OV Require Import Base.FloatKey Model.Clip Model.IR Model.IRSem Gen.Programs.
+Import ListNotations.
+Close Scope Z_scope.
+Open Scope nat_scope.
+(* population [(position, fitness)], best agent, local positions (swarm family), tree values and best tree value (GP) *)
+Definition snapT := (list (contents * Z) * (contents * Z) * option (list contents) * option (list contents * contents))%type.
+Definition ftab_f (t : list (contents * Z)) (c : contents) : Z :=
+  match find (fun p => contents_eqb (fst p) c) t with Some p => snd p | None => 0%Z end.
+Definition mk_agent (i : nat) (p : contents * Z) : agent := {| apos := fst p; aid := i; afit := snd p |}.
+Fixpoint mk_pop (i : nat) (l : list (contents * Z)) : list agent :=
+  match l with [] => [] | p :: t => mk_agent i p :: mk_pop (S i) t end.
+Definition mk_x0 (p : list (contents * Z)) (b : contents * Z) (zero : contents) (trees : list contents) (btree : contents) : st :=
+  let n := length p in
+  {| pop := mk_pop 0 p; best := mk_agent n b; tr := mk_agent (S n) (zero, KMAX); sh := []; loc := repeat zero n; tmp := 0%Z;
+     idx := []; next := S (S n); hyp := []; tv := trees; btv := btree |}.
+Fixpoint first_diff {A B} (eq : A -> B -> bool) (i : nat) (l1 : list A) (l2 : list B) : option nat :=
+  match l1, l2 with
+  | [], [] => None
+  | a :: t1, b :: t2 => if eq a b then first_diff eq (S i) t1 t2 else Some i
+  | _, _ => Some i
+  end.
+(* difference inside the common prefix only (used when the model stopped early) *)
+Fixpoint prefix_diff {A B} (eq : A -> B -> bool) (i : nat) (l1 : list A) (l2 : list B) : option nat :=
+  match l1, l2 with
+  | a :: t1, b :: t2 => if eq a b then prefix_diff eq (S i) t1 t2 else Some i
+  | _ :: _, [] => Some i
+  | [], _ => None
+  end.
+Definition cmp_snap (y : st) (s : snapT) : nat * nat :=
+  let '(p, b, l, t) := s in
+  match first_diff (fun a q => contents_eqb (apos a) (fst q)) 0 (pop y) p with Some j => (6, j) | None =>
+  match first_diff (fun a q => Z.eqb (afit a) (snd q)) 0 (pop y) p with Some j => (7, j) | None =>
+  if negb (contents_eqb (apos (best y)) (fst b)) then (8, 0) else
+  if negb (Z.eqb (afit (best y)) (snd b)) then (9, 0) else
+  match (match l with Some lc => first_diff contents_eqb 0 (loc y) lc | None => None end) with Some j => (10, j) | None =>
+  match t with
+  | Some (ts, bt) => match first_diff contents_eqb 0 (tv y) ts with Some j => (11, j) | None =>
+                     if contents_eqb (btv y) bt then (0, 0) else (12, 0) end
+  | None => (0, 0) end end end end.
+Definition dumps_of (evs : list event) : list st := flat_map (fun e => match e with EvDump y => [y] | _ => [] end) evs.
+Fixpoint cmp_dumps (i : nat) (ys : list st) (ss : list snapT) : nat * nat * nat :=
+  match ys, ss with
+  | [], [] => (0, 0, 0)
+  | y :: ys', s :: ss' => match cmp_snap y s with (0, _) => cmp_dumps (S i) ys' ss' | (c, j) => (c, i, j) end
+  | _, _ => (5, i + length ys, i + length ss)
+  end.
+Fixpoint first_none (r : nat -> res) (t n : nat) : nat :=
+  match n with 0 => t | S k => match r t with None => t | Some _ => first_none r (S t) k end end.
+(* verdict (code, i, j): 0 agreement; 1 the semantics is stuck in iteration i after consuming j answers; 2 i answers left over;
+   3 / 4 objective argument / value number i differs; 5 number of records (model i, recorded j); 6..12 record i (i = number of
+   records: the final state), component: 6 position of agent j, 7 fitness of agent j, 8 best position, 9 best fitness, 10 local
+   position j, 11 value of tree j, 12 best tree value; 13 / 14 as 3 / 4 but found in the iterations before the semantics got stuck *)
+Definition check (p : stmt) (T : nat) (lbs ubs : list Z) (x0 : st) (o : list answer) (ft : list (contents * Z))
+    (args : list contents) (vals : list Z) (dumps : list snapT) (final : snapT) : nat * nat * nat :=
+  let r := fun t => run lbs ubs (ftab_f ft) (fun x => x) t okc_std p o x0 in
+  match r T with
+  | None =>
+      let t := first_none r 0 (S T) in
+      match t with
+      | 0 => (1, 0, 0)
+      | S t' => match r t' with
+                | Some (_, evs, rest) =>
+                    match prefix_diff contents_eqb 0 (eval_args evs) args with Some i => (13, i, t) | None =>
+                    match prefix_diff Z.eqb 0 (eval_vals evs) vals with Some i => (14, i, t) | None =>
+                    (1, t, length o - length rest) end end
+                | None => (1, t, 0) end
+      end
+  | Some (x', evs, rest) =>
+      match first_diff contents_eqb 0 (eval_args evs) args with Some i => (3, i, 0) | None =>
+      match first_diff Z.eqb 0 (eval_vals evs) vals with Some i => (4, i, 0) | None =>
+      match cmp_dumps 0 (dumps_of evs) dumps with
+      | (0, _, _) => match cmp_snap x' final with
+                     | (0, _) => match rest with [] => (0, 0, 0) | _ => (2, length rest, 0) end
+                     | (c, j) => (c, length dumps, j) end
+      | v => v end end end
+  end.
+'''
+
+REPLAY_WHAT = {1: 'the IR semantics gets stuck', 2: 'oracle answers left over', 3: 'objective argument differs', 4: 'objective value differs',
+               5: 'number of records differs', 6: 'position of an agent differs', 7: 'fitness of an agent differs', 8: 'best position differs',
+               9: 'best fitness differs', 10: 'local position differs', 11: 'tree value differs', 12: 'best tree value differs',
+               13: 'objective argument differs (before the semantics got stuck)', 14: 'objective value differs (before the semantics got stuck)'}
+
+
+def _coq_z(k):
+    return '(%d)%%Z' % k
+
+
+def _coq_cont(c):
+    return '[' + '; '.join('[' + '; '.join(core.coq_okey(k) for k in row) + ']' for row in c) + ']'
+
+
+def _coq_answer(a):
+    k, v = a
+    if k == 'C':
+        return 'ACont ' + _coq_cont(v)
+    if k == 'B':
+        return 'ABool ' + ('true' if v else 'false')
+    if k == 'N':
+        return 'ANat %d' % v
+    return 'ATrees [' + '; '.join(_coq_cont(c) for c in v) + ']'
+
+
+def _coq_snap(d):
+    pop = '[' + '; '.join('(%s, %s)' % (_coq_cont(c), _coq_z(k)) for c, k in d['pop']) + ']'
+    best = '(%s, %s)' % (_coq_cont(d['best'][0]), _coq_z(d['best'][1]))
+    loc = 'None' if d.get('loc') is None else '(Some [' + '; '.join(_coq_cont(c) for c in d['loc']) + '])'
+    tr = 'None' if d.get('trees') is None else '(Some ([' + '; '.join(_coq_cont(c) for c in d['trees']) + '], ' + _coq_cont(d['btree']) + '))'
+    return '(%s, %s, %s, %s)' % (pop, best, loc, tr)
+
+
+def _coq_case(c):
+    nv, nd = c['shape'][0], (c['shape'][1] if len(c['shape']) > 1 else 1)
+    zero = [[0] * nd for _ in range(nv)]
+    x0 = '(mk_x0 %s %s %s %s %s)' % (
+        '[' + '; '.join('(%s, %s)' % (_coq_cont(p), _coq_z(k)) for p, k in c['x0']['pop']) + ']',
+        '(%s, %s)' % (_coq_cont(c['x0']['best'][0]), _coq_z(c['x0']['best'][1])), _coq_cont(zero),
+        '[' + '; '.join(_coq_cont(t) for t in (c['x0'].get('trees') or [])) + ']', _coq_cont(c['x0'].get('btree') or zero))
+    e = c['expected']
+    return ('check prog_%s %d [%s] [%s]\n  %s\n  [%s]\n  [%s]\n  [%s]\n  [%s]\n  [%s]\n  %s' % (
+        c['optimizer'], c['T'], '; '.join(_coq_z(k) for k in c['lbs']), '; '.join(_coq_z(k) for k in c['ubs']), x0,
+        '; '.join(_coq_answer(a) for a in c['oracle']),
+        '; '.join('(%s, %s)' % (_coq_cont(a), _coq_z(v)) for a, v in c['ftable']),
+        '; '.join(_coq_cont(a) for a in e['args']), '; '.join(_coq_z(v) for v in e['vals']),
+        ';\n   '.join(_coq_snap(d) for d in e['dumps']), _coq_snap(e['final'])))
+
+
+def _replay_data(ctx):
+    """Run (or reuse) harness/t2state.py.  Cached per repo hash / tier / seed / hash of the harness and of T2."""
+    import hashlib
+    import json
+    cdir = os.path.join(core.WORK, 't2state_cache')
+    os.makedirs(cdir, exist_ok=True)
+    h = hashlib.sha256()
+    for f in (('harness', 't2state.py'), ('harness', 'hlib.py'), ('translate', 't2_ir.py'), ('translate', 'common.py')):
+        h.update(open(os.path.join(core.VERIF, *f), 'rb').read())
+    cpath = os.path.join(cdir, '%s-%s-%s-%s.json' % (ctx.repo_hash, ctx.tier, ctx.seed, h.hexdigest()[:8]))
+    with core.Lock('t2state'):
+        if os.path.exists(cpath):
+            try:
+                return json.load(open(cpath)), ''
+            except ValueError:
+                pass
+        rc, data, out = ctx.run_harness_json('t2state.py', timeout=1500)
+        if data is None:
+            return None, out
+        with open(cpath + '.tmp', 'w') as f:
+            json.dump(data, f)
+        os.replace(cpath + '.tmp', cpath)
+        for old in sorted((os.path.join(cdir, f) for f in os.listdir(cdir)), key=os.path.getmtime)[:-12]:
+            os.remove(old)
+    return data, ''
+
+
+def _describe(c, code, i, j):
+    """Human-readable account of a mismatch: which component differs first, in which run."""
+    e = c['expected']
+    what = REPLAY_WHAT.get(code, 'code %d' % code)
+    nd = len(e['dumps'])
+    if code == 1:
+        k = j
+        src = c['plan'][c['osrc'][k]] if k < len(c['osrc']) else 'end of the oracle'
+        what += ' in iteration %d of %d after consuming %d of %d oracle answers (next answer: %s from %s)' % (
+            i, c['T'], k, len(c['oracle']), c['oracle'][k][0] if k < len(c['oracle']) else '-', src)
+    elif code == 2:
+        k = len(c['oracle']) - i
+        what += ': %d of %d (first unused answer from %s)' % (i, len(c['oracle']), c['plan'][c['osrc'][k]] if 0 <= k < len(c['osrc']) else '?')
+    elif code in (3, 4, 13, 14):
+        what += ': call number %d of %d' % (i, len(e['args']))
+    elif code == 5:
+        what += ': model %d, implementation %d' % (i, j)
+    elif code >= 6:
+        what += ' (%s%s)' % ('final state' if i >= nd else 'record %d of %d' % (i, nd), ', index %d' % j if code in (6, 7, 10, 11) else '')
+    return '%s N=%d T=%d %s/%s box=%s seed=%d: %s' % (c['optimizer'], c['N'], c['T'], c['space'], c['objective'], c['box'], c['seed'], what)
+
+
+def state_replay(ctx, meta):
+    """Validation of T2 and of Model/IRSem.v at the level of state: for recorded real runs (oracle, initial state and objective table
+    extracted by AST instrumentation driven by T2's recording plan) `run prog_X oracle x0` is evaluated inside Coq and compared with
+    the implementation: arguments and values of every objective call, population and best agent at every record and at return."""
+    data, out = _replay_data(ctx)
+    if data is None:
+        ctx.oblige('T2 state replay: recording harness ran', False, out[-2000:])
+        return
+    cases = [c for c in data['cases'] if c['optimizer'] in meta]
+    verdict = {}
+    per_file = 200
+    for k in range(0, len(cases), per_file):
+        chunk = cases[k:k + per_file]
+        v = [REPLAY_PRELUDE]
+        for n, c in enumerate(chunk):
+            v.append('Definition case_%d :=\n %s.' % (k + n, _coq_case(c)))
+        v.append('Goal True. let r := eval vm_compute in [%s] in idtac "@@R" r "@@E". exact I. Qed.' % '; '.join('case_%d' % (k + n) for n in range(len(chunk))))
+        ok, cout = ctx.coq_eval('\n'.join(v) + '\n', 'cases_t2state_%d' % (k // per_file), timeout=1500)
+        m = re.search(r'@@R(.*?)@@E', cout, re.S) if ok else None
+        trip = re.findall(r'\(\s*(\d+)\s*,\s*(\d+)\s*,\s*(\d+)\s*\)', m.group(1)) if m else []
+        if not ok or len(trip) != len(chunk):
+            ctx.oblige('T2 state replay: recorded runs evaluate in Coq (file %d)' % (k // per_file), False, cout[-2500:])
+            continue
+        for n, t in enumerate(trip):
+            verdict[k + n] = tuple(int(x) for x in t)
+    kinds, per_opt = {}, {}
+    for n, c in enumerate(cases):
+        if n not in verdict:
+            continue
+        per_opt.setdefault(c['optimizer'], []).append((n, c))
+        for a in c['oracle']:
+            kinds[a[0]] = kinds.get(a[0], 0) + 1
+    names = {'C': 'havoc_contents', 'B': 'opaque_tests', 'N': 'indices_and_loop_counts', 'T': 'tree_steps'}
+    cov = {'cases': {o: len(l) for o, l in per_opt.items()}, 'skipped_runs': data.get('skipped', {}), 'not_replayed': data.get('not_replayed', {}),
+           'oracle_answers': {names[k]: v for k, v in kinds.items()}, 'mismatches': {},
+           'objective_calls_compared': sum(len(c['expected']['args']) for n, c in enumerate(cases) if n in verdict),
+           'records_compared': sum(len(c['expected']['dumps']) + 1 for n, c in enumerate(cases) if n in verdict)}
+    ctx.cov['state_replay'] = cov
+    for o in OPTS:
+        if o not in per_opt:
+            continue
+        bad = [(n, c) for n, c in per_opt[o] if verdict[n][0] != 0]
+        detail = '; '.join(_describe(c, *verdict[n]) for n, c in bad[:4])
+        if bad:
+            cov['mismatches'][o] = [_describe(c, *verdict[n]) for n, c in bad[:8]]
+        ctx.oblige('T2 state replay: the IR semantics of prog_%s executed inside Coq on the recorded oracle reproduces the implementation '
+                   '(objective arguments and values, every record, final population) on %d runs' % (o, len(per_opt[o])), not bad,
+                   '%d of %d runs disagree: %s' % (len(bad), len(per_opt[o]), detail))
+        if bad:
+            # as for a rejected trace: let the run monitor search for a concrete violation of this property on that optimizer; if it
+            # finds none the broken obligation stands (no-failing-input-found)
+            monitor_data(ctx, focus=o)
+    ctx.count(evaluations=len(verdict), nontrivial=sum(1 for n in verdict if len(cases[n]['oracle']) > 0))
+    ctx.trust('state replay (harness/t2state.py): the oracle is read off the running implementation by AST instrumentation placed by T2\'s '
+              'recording plan; a defect of the recorder shows up as a disagreement, never as an agreement by construction of both sides '
+              'from the same data (positions are read from the live objects, the model state is computed by Coq)')
+    if cases and 0 in verdict:
+        c = cases[0]
+        ctx.sample({'t2_state_replay': {k: c[k] for k in ('optimizer', 'N', 'T', 'space', 'objective', 'seed')},
+                    'oracle_answers': len(c['oracle']), 'objective_calls': len(c['expected']['args']), 'verdict': list(verdict[0])})
